@@ -274,6 +274,11 @@ namespace sim
               w.Double(o.tol);
             }
         }
+      if (!o.neq.empty())
+        {
+          w.Key("neq");
+          w.String(o.neq.c_str());
+        }
       if (o.draws >= 0)
         {
           w.Key("draws");
@@ -385,6 +390,7 @@ namespace sim
       S("via", o.via);
       S("name", o.name);
       S("eq", o.eq);
+      S("neq", o.neq);
       if (v.HasMember("tol") && v["tol"].IsNumber()) o.tol = v["tol"].GetDouble();
       if (v.HasMember("draws") && v["draws"].IsInt64()) o.draws = v["draws"].GetInt64();
       if (v.HasMember("gc") && v["gc"].IsObject())
